@@ -1,3 +1,163 @@
 package main
 
-func genMain(args []string) {}
+import (
+	"bufio"
+	"encoding/json"
+	"fmt"
+	"math/rand"
+	"os"
+	"path/filepath"
+	"sort"
+	"strconv"
+	"strings"
+)
+
+// gen collects the operation lines of one correspondence run, executes each on the real library as it
+// is generated, and records direct evaluations of the property's own predicate on the implementation.
+type gen struct {
+	prop, tier string
+	seed       int64
+	rng        *rand.Rand
+	st         *state
+	ops, impl  []string
+	counts     map[string]int // distribution: op kinds, outcome classes, branch counters
+	distinct   map[string]bool
+	samples    []string
+	findings   []finding
+	predEvals  int
+	thorough   bool
+}
+
+type finding struct {
+	Property string   `json:"property"`
+	Kind     string   `json:"kind"`   // stable identifier of what failed (used by known_findings.json)
+	Detail   string   `json:"detail"` // human-readable
+	Ops      []string `json:"ops"`    // protocol lines that replay it on the implementation
+}
+
+func (g *gen) bytes(n int) []byte {
+	b := make([]byte, n)
+	g.rng.Read(b)
+	return b
+}
+
+// op emits a protocol line (diffed against the Lean model) and returns the implementation's answer.
+func (g *gen) op(format string, a ...interface{}) string {
+	line := fmt.Sprintf(format, a...)
+	out := execOp(g.st, line)
+	g.ops = append(g.ops, line)
+	g.impl = append(g.impl, out)
+	kind := line
+	if i := strings.IndexByte(line, ' '); i > 0 {
+		kind = line[:i]
+	}
+	g.counts["op:"+kind]++
+	cls := out
+	if i := strings.IndexByte(out, ' '); i > 0 {
+		cls = out[:i]
+	}
+	g.counts["outcome:"+cls]++
+	g.distinct[line] = true
+	if len(g.samples) < 6 && g.rng.Intn(20) == 0 {
+		g.samples = append(g.samples, trunc(line, 160)+" => "+trunc(out, 120))
+	}
+	return out
+}
+
+func (g *gen) note(format string, a ...interface{}) {
+	g.ops = append(g.ops, "# "+fmt.Sprintf(format, a...))
+	g.impl = append(g.impl, "# "+fmt.Sprintf(format, a...))
+}
+
+func trunc(s string, n int) string {
+	if len(s) > n {
+		return s[:n] + "…"
+	}
+	return s
+}
+
+// check evaluates one instance of the property's predicate on the implementation.
+func (g *gen) check(ok bool, kind, detail string, ops ...string) {
+	g.predEvals++
+	g.counts["pred:"+kind]++
+	if !ok {
+		g.counts["predfail:"+kind]++
+		if len(g.findings) < 50 {
+			g.findings = append(g.findings, finding{g.prop, kind, detail, ops})
+		}
+	}
+}
+
+func okval(out string) (string, bool) {
+	if strings.HasPrefix(out, "ok ") {
+		return out[3:], true
+	}
+	if out == "ok" {
+		return "", true
+	}
+	return "", false
+}
+
+func field(out, key string) string {
+	for _, f := range strings.Split(out, " ") {
+		if strings.HasPrefix(f, key+"=") {
+			return f[len(key)+1:]
+		}
+	}
+	return ""
+}
+
+var generators = map[string]func(g *gen){}
+
+func genMain(args []string) {
+	if len(args) < 4 {
+		fmt.Fprintln(os.Stderr, "usage: harness gen <prop> <tier> <seed> <outdir> [search]")
+		os.Exit(2)
+	}
+	prop, tier := args[0], args[1]
+	seed, _ := strconv.ParseInt(args[2], 10, 64)
+	out := args[3]
+	f, ok := generators[prop]
+	if !ok {
+		fmt.Fprintln(os.Stderr, "no generator for", prop)
+		os.Exit(2)
+	}
+	g := &gen{prop: prop, tier: tier, seed: seed, rng: rand.New(rand.NewSource(seed*7919 + int64(len(prop)))), st: newState(),
+		counts: map[string]int{}, distinct: map[string]bool{}, thorough: tier == "thorough" || tier == "search"}
+	f(g)
+	for _, m := range g.st.mutations {
+		g.check(false, "input-mutated", "a call modified one of its input buffers: "+trunc(m, 200), m)
+	}
+	os.MkdirAll(out, 0o755)
+	writeLines(filepath.Join(out, "ops.txt"), g.ops)
+	writeLines(filepath.Join(out, "impl.txt"), g.impl)
+	keys := make([]string, 0, len(g.counts))
+	for k := range g.counts {
+		keys = append(keys, k)
+	}
+	sort.Strings(keys)
+	dist := map[string]int{}
+	for _, k := range keys {
+		dist[k] = g.counts[k]
+	}
+	stats := map[string]interface{}{
+		"ops": len(g.ops), "distinct_ops": len(g.distinct), "predicate_evaluations": g.predEvals,
+		"distribution": dist, "samples": g.samples, "findings": append([]finding{}, g.findings...),
+	}
+	b, _ := json.MarshalIndent(stats, "", " ")
+	os.WriteFile(filepath.Join(out, "stats.json"), b, 0o644)
+}
+
+func writeLines(path string, lines []string) {
+	f, err := os.Create(path)
+	if err != nil {
+		panic(err)
+	}
+	w := bufio.NewWriterSize(f, 1<<20)
+	for _, l := range lines {
+		w.WriteString(l)
+		w.WriteByte('\n')
+	}
+	w.Flush()
+	f.Close()
+}
